@@ -62,6 +62,7 @@ type c07 struct {
 	cancel  context.CancelFunc
 	armed   bool
 	garbage map[int64]bool // log sequences of undecodable entries
+	shutting bool          // a clean shutdown is in progress (overlap mode)
 	crashFS float64
 	crashY  float64
 }
@@ -77,6 +78,7 @@ func genC07(rng *rand.Rand, tier string) *core.Plan {
 	p.Cfg["nseries"] = 2 + rng.Intn(4)
 	p.Cfg["crash_fs_pm"] = []int{0, 5, 20, 60}[rng.Intn(4)]  // per file-system operation, while armed
 	p.Cfg["crash_y_pm10"] = []int{0, 2, 10, 40}[rng.Intn(4)] // per 10000 function entries, while armed
+	overlap := rng.Intn(3) == 0                                // clean shutdowns do not wait for a running flush job
 	n := 5 + rng.Intn(12)
 	for i := 0; i < n; i++ {
 		switch r := rng.Intn(100); {
@@ -95,8 +97,14 @@ func genC07(rng *rand.Rand, tier string) *core.Plan {
 		case r < 92:
 			p.Ops = append(p.Ops, core.Op{K: "check"})
 		default:
+			if overlap && rng.Intn(2) == 0 {
+				p.Ops = append(p.Ops, core.Op{K: "append", A: 1, B: int64(1 + rng.Intn(2))}, core.Op{K: "flush"})
+			}
 			p.Ops = append(p.Ops, core.Op{K: "restart"}) // clean shutdown + start
 		}
+	}
+	if overlap {
+		p.Cfg["overlap_close"] = 1
 	}
 	if rng.Intn(4) == 0 {
 		// late data of a family that leaves the writable range: more than a day passes (the log manager's
@@ -288,21 +296,23 @@ func (h *c07) check(when string) {
 			}
 		}
 	}
-	if os.Getenv("VERIF_TRACE") != "" {
-		c.Sim.Event("  read back %d cells of %d: %v; applied=%d persisted=%d appended=%d", len(got), h.ncells, got, h.applied(), h.persisted(), replica.VerifPartitionLog(h.part).Queue().AppendedSeq())
-		if rs != nil {
-			for _, s := range rs.Series {
-				c.Sim.Event("  series %v: %v", s.Tags, s.Fields["fsum"])
+	dump := func() {
+		if os.Getenv("VERIF_TRACE") != "" {
+			c.Sim.Event("  read back %d cells of %d: %v; applied=%d persisted=%d appended=%d", len(got), h.ncells, got, h.applied(), h.persisted(), replica.VerifPartitionLog(h.part).Queue().AppendedSeq())
+			if rs != nil {
+				for _, s := range rs.Series {
+					c.Sim.Event("  series %v: %v", s.Tags, s.Fields["fsum"])
+				}
 			}
-		}
-		rs2, err2 := h.node.Query(h.db, "select fsum from m where time>='2000-01-01 00:00:00' and time<='2000-01-01 00:59:59' group by id", Layout{Leaves: all})
-		if rs2 != nil {
-			for _, s := range rs2.Series {
-				c.Sim.Event("  (no time grouping) series %v: %v", s.Tags, s.Fields["fsum"])
+			rs2, err2 := h.node.Query(h.db, "select fsum from m where time>='2000-01-01 00:00:00' and time<='2000-01-01 00:59:59' group by id", Layout{Leaves: all})
+			if rs2 != nil {
+				for _, s := range rs2.Series {
+					c.Sim.Event("  (no time grouping) series %v: %v", s.Tags, s.Fields["fsum"])
+				}
 			}
+			c.Sim.Event("  (no time grouping) err=%v; family state %+v", err2, h.family().GetState())
+			(&run{c: c, n: h.node, db: h.db, shards: 1}).dumpIndex()
 		}
-		c.Sim.Event("  (no time grouping) err=%v; family state %+v", err2, h.family().GetState())
-		(&run{c: c, n: h.node, db: h.db, shards: 1}).dumpIndex()
 	}
 	for i, m := range h.msgs {
 		for _, n := range m.cells {
@@ -310,12 +320,15 @@ func (h *c07) check(when string) {
 			switch {
 			case ok && v > 1:
 				c.Violate("C07/applied-twice", "%s: message %d (cell %d, series %s) reads %v: it was applied %v times", when, i, n, h.cellSeries(n), v, v)
+				dump() // post mortem only: tracing must not change the run before the verdict
 				return
 			case !ok && m.acked:
 				c.Violate("C07/logged-write-lost", "%s: message %d (cell %d, series %s) was appended to the log before the crash and is neither in the flushed data nor replayed", when, i, n, h.cellSeries(n))
+				dump() // post mortem only: tracing must not change the run before the verdict
 				return
 			case ok && v != 1:
 				c.Violate("C07/value-wrong", "%s: message %d cell %d reads %v", when, i, n, v)
+				dump() // post mortem only: tracing must not change the run before the verdict
 				return
 			}
 		}
@@ -370,11 +383,22 @@ func runC07(c *core.RunCtx) {
 			h.crashNow(pkg)
 		}
 	}
+	sim.OnPanic = func(task string, inc int, msg string) bool {
+		if !h.shutting || inc != h.inc || h.dead {
+			return false
+		}
+		sim.Fault("shutdown-panic")
+		sim.Event("unrecovered panic of %s during shutdown = process death: %s", task, msg)
+		h.dead = true
+		sim.KillOthers(inc)
+		return true
+	}
 	defer func() {
 		kv.VerifSetFS(nil)
 		version.VerifSetFS(nil)
 		table.VerifSetFS(nil)
 		sim.OnYield = nil
+		sim.OnPanic = nil
 	}()
 
 	next := 0
@@ -455,10 +479,38 @@ func runC07(c *core.RunCtx) {
 					sim.Fault("clean-restart")
 					// a shutdown that overlaps a running flush job is not what this property is about (and it
 					// can hang: dataFamily.Close waits for the flush while holding the lock the flush needs)
-					h.waitFlush()
-					h.walMgr.Stop()
-					h.node.Engine.Close()
-					_ = h.walMgr.Close()
+					if c.Plan.C("overlap_close", 0) == 0 {
+						h.waitFlush()
+						h.walMgr.Stop()
+						h.node.Engine.Close()
+						_ = h.walMgr.Close()
+					} else {
+						// SIGTERM whenever it comes, also while a flush job runs. lindb can hang there (see above) or
+						// panic (overlapping metadata flushes); a shutdown that hangs for two simulated minutes is
+						// killed by the operator and an unrecovered panic ends the process: both are process deaths,
+						// and recovery has to cope with what they leave behind
+						if tsdb.VerifFlushInFlight(h.node.Engine) > 0 {
+							sim.Fault("shutdown-during-flush")
+						}
+						done := false
+						h.shutting = true
+						sim.SpawnIn(h.inc, "shutdown", func() {
+							h.walMgr.Stop()
+							h.node.Engine.Close()
+							_ = h.walMgr.Close()
+							done = true
+						})
+						t0 := sim.Elapsed()
+						sim.Await(func() bool { return done || h.dead || sim.Elapsed()-t0 > 2*time.Minute })
+						h.shutting = false
+						if !done {
+							if !h.dead {
+								sim.Fault("shutdown-hung")
+								h.crashNow("hung-shutdown")
+							}
+							return
+						}
+					}
 					h.cancel()
 					if !h.start(false) {
 						return
